@@ -89,6 +89,8 @@ pub enum Op {
     /// open instance i (key index, data-dir index)
     Open { inst: u8, key: u8, dir: u8 },
     Close { inst: u8 },
+    /// C14: open instance 0 through constructor `ctor` with an arbitrary namespace key
+    OpenKey { key: String, ctor: u8 },
 }
 
 impl Op {
@@ -116,6 +118,7 @@ impl Op {
             Op::Use { inst } => format!("use({})", inst),
             Op::Open { inst, key, dir } => format!("open({},key{},dir{})", inst, key, dir),
             Op::Close { inst } => format!("close({})", inst),
+            Op::OpenKey { key, ctor } => format!("open_key({:?},ctor{})", key, ctor),
         }
     }
 }
